@@ -187,16 +187,42 @@ class Driver:
 # Real implementation
 # ---------------------------------------------------------------------------------------------
 
-def real_compile(src: str, minify=True, xminify=False, tabs=False, spaces=True):
-    """In-process lesscpy.compile on text.  Returns ('ok', css) | ('err', class_name, message)."""
+class HarnessTimeout(BaseException):
+    pass
+
+
+def _alarm(_sig, _frm):
+    raise HarnessTimeout()
+
+
+COMPILE_TIMEOUT = float(os.environ.get('VERIF_COMPILE_TIMEOUT', '20'))
+
+
+def real_compile(src: str, minify=True, xminify=False, tabs=False, spaces=True, timeout=None):
+    """In-process lesscpy.compile on text.  Returns ('ok', css) | ('err', class_name, message, mro) |
+    ('timeout', seconds, text, mro): every call runs under a wall-clock bound so a non-terminating
+    compilation cannot wedge the harness."""
     use_repo()
     import lesscpy
+    import signal
+    import threading
+    t = timeout or COMPILE_TIMEOUT
+    use_alarm = threading.current_thread() is threading.main_thread()
+    if use_alarm:
+        old = signal.signal(signal.SIGALRM, _alarm)
+        signal.setitimer(signal.ITIMER_REAL, t)
     try:
         return ('ok', lesscpy.compile(io.StringIO(src), minify=minify, xminify=xminify, tabs=tabs, spaces=spaces))
+    except HarnessTimeout:
+        return ('timeout', t, 'no result within %.0f s' % t, ['HarnessTimeout'])
     except BaseException as e:  # noqa: the harness classifies every escape
         if isinstance(e, (KeyboardInterrupt, SystemExit)):
             raise
         return ('err', type(e).__name__, str(e)[:400], [c.__name__ for c in type(e).__mro__])
+    finally:
+        if use_alarm:
+            signal.setitimer(signal.ITIMER_REAL, 0)
+            signal.signal(signal.SIGALRM, old)
 
 
 def _compile_job(job):
